@@ -65,7 +65,7 @@ type decompressor struct {
 	ownBuf        bool // rBuf was allocated by this Reader (not handed in by the caller)
 }
 
-func (r *decompressor) Reset(under io.Reader, _ []byte) error {
+func (r *decompressor) Reset(under io.Reader, dict []byte) error {
 	r.r = under
 	if ur, ok := under.(*bufio.Reader); ok {
 		r.rBuf = ur
@@ -88,6 +88,17 @@ func (r *decompressor) Reset(under io.Reader, _ []byte) error {
 	r.readPos = 0
 	r.outputFull = false
 	r.state.reset()
+	if len(dict) > 0 {
+		// preset dictionary (flate.Resetter contract): it is the history the
+		// stream's back-references may reach into, exactly as if it had just
+		// been decoded and delivered
+		if len(dict) > historySize {
+			dict = dict[len(dict)-historySize:]
+		}
+		n := copy(r.historyBuffer[:], dict)
+		r.writePos = n
+		r.readPos = n
+	}
 	return nil
 }
 
